@@ -4,7 +4,7 @@ import StoneVerif.Lemmas.FeCompileFaithful
 import StoneVerif.Lemmas.FeCompileAcyclic
 import StoneVerif.Lemmas.FeCompileOrder
 import StoneVerif.Lemmas.FeCompileFuel
-import StoneVerif.Lemmas.FeCompilePatch
+import StoneVerif.Lemmas.FeCompileAnnot
 /-!
 # C02 for the compile model: the Api is the image of the declarations
 
